@@ -41,21 +41,11 @@ theorem peekPresetOld_counterexample : peekPresetOld none 0 = .error (.host 1) :
 /-- `Integer.from_int`: whatever is given to struct.pack_into('<h'/'<H') fits in 16 bits -/
 theorem fromInt_pack_ok (n : Int) (u : Bool) (r : Nat) (h : IntOps.fromInt n u = .ok r) : r < 65536 := by
   unfold IntOps.fromInt at h
-  cases u
-  · simp only [Bool.false_and, Bool.false_eq_true, if_false] at h
-    split at h
-    · injection h with h; subst h; unfold IntOps.pack; split <;> omega
-    · cases h
-  · simp only [Bool.true_and, if_true] at h
-    by_cases hn : n < 0
-    · simp only [hn, decide_true, if_true] at h
-      split at h
-      · injection h with h; subst h; unfold IntOps.pack; split <;> omega
-      · cases h
-    · simp only [hn, decide_false, Bool.false_eq_true, if_false] at h
-      split at h
-      · injection h with h; subst h; unfold IntOps.pack; split <;> omega
-      · cases h
+  cases u <;> simp only [Bool.false_eq_true, if_false, if_true] at h <;> split at h
+  · injection h with h; subst h; unfold IntOps.pack; split <;> omega
+  · cases h
+  · injection h with h; subst h; unfold IntOps.pack; split <;> omega
+  · cases h
 
 /-- `_check_limits`: the exponent handed to `int2byte` is a byte -/
 theorem checkLimits_byte (f : Mbf.Fmt) (m : Nat) (e : Int) (neg : Bool) (x : Mbf.F)
